@@ -1314,6 +1314,14 @@ impl Values {
     }
 }
 
+/// Verification hook (only with `--cfg qrlew_verif`): read access to the literal rows.
+#[cfg(qrlew_verif)]
+impl Values {
+    pub fn verif_values(&self) -> &[Value] {
+        &self.values
+    }
+}
+
 impl fmt::Display for Values {
     fn fmt(&self, f: &mut fmt::Formatter) -> fmt::Result {
         write!(
